@@ -1,6 +1,7 @@
 package vh
 
 import (
+	"github.com/henrylee2cn/erpc/v6/plugin/secure"
 	"net/http"
 	"runtime"
 	"strings"
@@ -64,6 +65,7 @@ type CorrScenario struct {
 	Hold     int    `json:"hold"`
 	Barrier  bool   `json:"barrier"`
 	Mixed    bool   `json:"mixed"`
+	Secure   bool   `json:"secure"`
 }
 
 // PStr is the argument type used with the plain codec (a named string type).
@@ -141,6 +143,24 @@ func (c *CS) Call(arg *PStr) (*PStr, *erpc.Status) {
 	return &r, nil
 }
 
+// CB / PBB: raw byte bodies "tag|pad" (argument and result are byte slices, no codec is involved): /cb/call, /pbb/push
+type CB struct{ erpc.CallCtx }
+
+func (c *CB) Call(arg *[]byte) ([]byte, *erpc.Status) {
+	tag, pad := curCorr.handle("call", Name(c.Session()), c.Seq(), func() string { return metaView(c) },
+		func() (string, string) { return splitTP(string(*arg)) })
+	replyMeta(c, tag)
+	return []byte(F(tag) + "|" + pad), nil
+}
+
+type PBB struct{ erpc.PushCtx }
+
+func (c *PBB) Push(arg *[]byte) *erpc.Status {
+	curCorr.handle("push", Name(c.Session()), c.Seq(), func() string { return metaView(c) },
+		func() (string, string) { return splitTP(string(*arg)) })
+	return nil
+}
+
 type PS struct{ erpc.PushCtx }
 
 func (c *PS) Push(arg *PStr) *erpc.Status {
@@ -191,9 +211,15 @@ type metaVisitor interface {
 }
 
 // metaView renders the complete request metadata (every key, in order, with its value).
+// pluginMeta: markers the shipped secure plugin adds to a message are the plugin's, not the sender's
+func pluginMeta(k []byte) bool { return string(k) == "X-Secure" || string(k) == "X-Accept-Secure" }
+
 func metaView(c metaVisitor) string {
 	var b []byte
 	c.VisitMeta(func(k, v []byte) {
+		if pluginMeta(k) {
+			return
+		}
 		b = append(b, k...)
 		b = append(b, '=')
 		b = append(b, v...)
@@ -256,6 +282,8 @@ func corrRoutes(p erpc.Peer) {
 	p.RoutePush(new(PT))
 	p.RouteCall(new(CS))
 	p.RoutePush(new(PS))
+	p.RouteCall(new(CB))
+	p.RoutePush(new(PBB))
 	p.RouteCall(new(CP))
 	p.RoutePush(new(PP))
 	p.RouteCall(new(CTT))
@@ -318,7 +346,12 @@ func drvCorr(args []string) int {
 	return 0
 }
 
-func codecSetting(c string) erpc.MessageSetting { return erpc.WithBodyCodec(c[0]) }
+func codecSetting(c string) erpc.MessageSetting {
+	if c == "b" {
+		return erpc.WithBodyCodec('s') // raw byte bodies bypass the codec; the frame names the plain codec
+	}
+	return erpc.WithBodyCodec(c[0])
+}
 
 func pipeSetting(p string) erpc.MessageSetting {
 	if p == "" {
@@ -333,8 +366,16 @@ func runCorr(rec *Rec, sc *CorrScenario, n int) {
 	app := &corrApp{rec: rec, hold: sc.Hold}
 	curCorr = app
 	pf := ProtoFuncByName(sc.Proto)
-	srv := erpc.NewPeer(erpc.PeerConfig{DefaultBodyCodec: "json"})
-	cli := erpc.NewPeer(erpc.PeerConfig{DefaultBodyCodec: "json"})
+	var plugs []erpc.Plugin
+	if sc.Secure {
+		// an accept hook that leaves an entry in the swap of every session, and the shipped secure plugin
+		plugs = []erpc.Plugin{swapSeeder{}, secure.NewPlugin(9999, "0123456789abcdef")}
+	}
+	srv := erpc.NewPeer(erpc.PeerConfig{DefaultBodyCodec: "json"}, plugs...)
+	if sc.Secure {
+		plugs = []erpc.Plugin{swapSeeder{}, secure.NewPlugin(9999, "0123456789abcdef")}
+	}
+	cli := erpc.NewPeer(erpc.PeerConfig{DefaultBodyCodec: "json"}, plugs...)
 	corrRoutes(srv)
 	corrRoutes(cli)
 	defer func() {
@@ -405,6 +446,8 @@ func runCorr(rec *Rec, sc *CorrScenario, n int) {
 	switch sc.Codec {
 	case "s":
 		callRoute, pushRoute = "/cs/call", "/ps/push"
+	case "b":
+		callRoute, pushRoute = "/cb/call", "/pbb/push"
 	case "p":
 		callRoute, pushRoute = "/cp/call", "/pp/push"
 	case "t":
@@ -416,6 +459,9 @@ func runCorr(rec *Rec, sc *CorrScenario, n int) {
 			a := PStr(tag + "|" + pad)
 			r := new(PStr)
 			return &a, r, func() (string, string) { return splitTP(string(*r)) }
+		case "b":
+			r := new([]byte)
+			return []byte(tag + "|" + pad), r, func() (string, string) { return splitTP(string(*r)) }
 		case "p":
 			r := new(pb.Payload)
 			return &pb.Payload{ServiceMethod: tag, Body: []byte(pad)}, r, func() (string, string) { return r.ServiceMethod, string(r.Body) }
@@ -434,6 +480,9 @@ func runCorr(rec *Rec, sc *CorrScenario, n int) {
 		code  int32
 		msg   string
 		rmeta string
+		rt    string // the result as the caller read it when the call completed ...
+		rp    string
+		read  func() (string, string) // ... and the way to read it again
 	}
 	var heldMu sync.Mutex
 	var held []heldCall
@@ -461,6 +510,9 @@ func runCorr(rec *Rec, sc *CorrScenario, n int) {
 					tag := fmt.Sprintf("%s.%d.%d.%d", sc.ID, si, g, i)
 					pad := PadFor(tag, sc.Size)
 					settings := append([]erpc.MessageSetting{codecSetting(sc.Codec)}, MetaFor(tag)...)
+					if sc.Secure {
+						settings = append(settings, secure.WithSecureMeta())
+					}
 					if ps := pipeSetting(sc.Pipe); ps != nil {
 						settings = append(settings, ps)
 					}
@@ -472,7 +524,7 @@ func runCorr(rec *Rec, sc *CorrScenario, n int) {
 					arg, res, read := mk(tag, pad)
 					atomic.AddInt64(&started, 1)
 					exp, route := "ok", callRoute
-					if sc.Mixed && kind != 2 && sc.Codec != "s" && sc.Codec != "p" && sc.Codec != "t" {
+					if sc.Mixed && kind != 2 && sc.Codec != "s" && sc.Codec != "p" && sc.Codec != "t" && sc.Codec != "b" {
 						switch (g*7 + i) % 5 {
 						case 3:
 							exp, route = "hstat", "/ct/fail"
@@ -514,6 +566,9 @@ func runCorr(rec *Rec, sc *CorrScenario, n int) {
 						if m := cmd.InputMeta(); m != nil {
 							var b []byte
 							m.VisitAll(func(k, v []byte) {
+								if pluginMeta(k) {
+									return
+								}
 								b = append(b, k...)
 								b = append(b, '=')
 								b = append(b, v...)
@@ -523,7 +578,7 @@ func runCorr(rec *Rec, sc *CorrScenario, n int) {
 						}
 						rec.Emit("CallDone", "c", tag, "code", st.Code(), "msg", st.Msg(), "okres", rt == F(tag), "okpad", rp == pad, "okmeta", rm == ReplyMetaViewFor(tag), "rmeta", rm)
 						heldMu.Lock()
-						held = append(held, heldCall{cmd: cmd, tag: tag, code: st.Code(), msg: st.Msg(), rmeta: rm})
+						held = append(held, heldCall{cmd: cmd, tag: tag, code: st.Code(), msg: st.Msg(), rmeta: rm, rt: rt, rp: rp, read: read})
 						heldMu.Unlock()
 					}
 					atomic.AddInt64(&finished, 1)
@@ -557,6 +612,9 @@ func runCorr(rec *Rec, sc *CorrScenario, n int) {
 		if m := h.cmd.InputMeta(); m != nil {
 			var b []byte
 			m.VisitAll(func(k, v []byte) {
+				if pluginMeta(k) {
+					return
+				}
 				b = append(b, k...)
 				b = append(b, '=')
 				b = append(b, v...)
@@ -568,6 +626,12 @@ func runCorr(rec *Rec, sc *CorrScenario, n int) {
 			changed++
 			if firstChanged == "" {
 				firstChanged = fmt.Sprintf("%s: status %d/%q -> %d/%q, reply metadata %q -> %q", h.tag, h.code, h.msg, st.Code(), st.Msg(), h.rmeta, rm)
+			}
+		} else if t2, p2 := h.read(); t2 != h.rt || p2 != h.rp {
+			// the result the caller was handed is the caller's: later messages must not change it
+			changed++
+			if firstChanged == "" {
+				firstChanged = fmt.Sprintf("%s: result %q|%d bytes -> %q|%d bytes", h.tag, h.rt, len(h.rp), t2, len(p2))
 			}
 		}
 	}
